@@ -22,6 +22,8 @@ ASSUMPTIONS = ["np.lexsort is a stable sort whose last key is the primary key an
 
 def check(ctx):
     repo = ctx.repo
+    from . import generic as _gen
+    _gen.language_traps(ctx, _gen.anchor_functions(repo, "C03"), "the property holds for every input, on every call")
     ctx.rule("IDX-1", "one loop-invariant row index for all yielded columns")
     ctx.rule("ORD-1", "lexsort keys in reversed user order; rank(method='min'); no other sort primitive")
     ctx.rule("DIR", "uses of dir dominated by the 1/-1 validation")
